@@ -257,6 +257,25 @@ func c09Child(args []string) int {
 				o.Detail = "resumed=" + clipS(got, 300) + " previous=" + clipS(pState, 200) + " new=" + clipS(nState, 200)
 			}
 		}
+		// what the restarted sidecar REPORTS must be the resumed assignment: one status entry per target, in the
+		// target's state (the coordinator reads states from the status, not from the store)
+		if o.LoadErr == "" && o.Resumed != "other" {
+			ti := fresh.TargetsInfo()
+			n := 0
+			for _, ts := range ti.Targets {
+				for _, t := range ts {
+					n++
+					if st := ti.Status[t.Hash]; st == nil || st.TargetState != t.TargetState {
+						o.Resumed = "other"
+						o.Detail = fmt.Sprintf("resumed target %d has state %q in the assignment but the status reports %v", t.Hash, t.TargetState, st)
+					}
+				}
+			}
+			if o.Resumed != "other" && n != len(ti.Status) {
+				o.Resumed = "other"
+				o.Detail = fmt.Sprintf("resumed assignment has %d targets, the status %d entries", n, len(ti.Status))
+			}
+		}
 		// the same restart while Prometheus is not up yet: the callbacks Load() runs fail; what the sidecar
 		// resumes must not depend on that
 		if o.LoadErr == "" {
